@@ -1,23 +1,25 @@
 """C09 - a run-space launch equals its independent runs and is linked by stable ids.
 
 D1 one spec id for inspect and trace (sibling normalisers + argument provenance),
-D2 launch bracket with truthful counts (must-pass-through / counting on cli._run),
+D2 launch bracket with truthful counts (must-pass-through / counting on cli._run) and per-emitter suppression state,
 D3 per-run freshness and linkage,
-D4 launch-id derivation and inputs id.
+D4 launch-id derivation, attempt forwarding and inputs id.
+
+Constructs are found by their role (what they call / read / are passed to) on the normal form of the
+functions (sa/normal.py), never by the spelling of a local variable; parameters, attributes, method names and
+mapping keys are interface names and are used as anchors.
 """
 from __future__ import annotations
 
 import ast
-import copy
-from typing import Dict, List, Optional, Set, Tuple
+from typing import Callable, Dict, Iterable, List, Optional, Set, Tuple
 
-from ..cfg import BASE, CFG, EXC, reaching_defs
+from ..cfg import BASE, CFG, EXC, edges_guaranteeing, reaching_defs
 from ..engine import (
     AnalysisError,
     FuncNode,
     Repo,
     ancestors,
-    assigned_value,
     call_attr,
     call_name,
     calls_in,
@@ -28,15 +30,21 @@ from ..engine import (
     stmt_of,
     walk_no_nested,
 )
+from ..normal import nfunc
 from ..report import Report
 from . import _orch
 
 CLI = "semantiva/cli/__init__.py"
 IDENT = "semantiva/trace/runtime/run_space_identity.py"
 LAUNCH = "semantiva/trace/runtime/run_space_launch.py"
+EMITTER = "semantiva/trace/runtime/run_space_emitter.py"
+TCTX = "semantiva/trace/runtime/context.py"
 BUILDER = "semantiva/inspection/builder.py"
 ORCH = _orch.ORCH
 PIPE = "semantiva/pipeline/pipeline.py"
+
+COPY_CALLS = {"dict", "copy", "deepcopy"}
+FRESH_CTORS = {"set", "dict", "list", "OrderedDict", "defaultdict", "deque", "WeakSet", "WeakValueDictionary"}
 
 
 def alpha_normal_form(fn: ast.FunctionDef, type_aliases: Dict[str, str]) -> str:
@@ -61,15 +69,164 @@ def alpha_normal_form(fn: ast.FunctionDef, type_aliases: Dict[str, str]) -> str:
     return "\n".join(ast.dump(st, include_attributes=False) for st in body)
 
 
+# ---------------------------------------------------------------------------------------------------------
+# small provenance helpers (role discovery through plain assignments)
+# ---------------------------------------------------------------------------------------------------------
+
+def _same(a: Optional[ast.AST], b: Optional[ast.AST]) -> bool:
+    return a is not None and b is not None and ast.dump(a, include_attributes=False) == ast.dump(b, include_attributes=False)
+
+
+def _is_none(e: ast.AST) -> bool:
+    return isinstance(e, ast.Constant) and e.value is None
+
+
+def _value_for(st: ast.AST, target: str) -> List[ast.AST]:
+    """What the assignment statement *st* binds to *target* (a local or dotted ``self.attr``); parallel
+    assignments ``a, b = x, y`` are paired element-wise."""
+    out: List[ast.AST] = []
+    if isinstance(st, ast.Assign):
+        for t in st.targets:
+            if isinstance(t, (ast.Name, ast.Attribute)) and dotted_name(t) == target:
+                out.append(st.value)
+            elif isinstance(t, (ast.Tuple, ast.List)) and isinstance(st.value, (ast.Tuple, ast.List)) and len(t.elts) == len(st.value.elts):
+                for a, b in zip(t.elts, st.value.elts):
+                    if isinstance(a, (ast.Name, ast.Attribute)) and dotted_name(a) == target:
+                        out.append(b)
+    elif isinstance(st, ast.AnnAssign) and st.value is not None and isinstance(st.target, (ast.Name, ast.Attribute)) and dotted_name(st.target) == target:
+        out.append(st.value)
+    return out
+
+
+def _assigned(fn: ast.AST, target: str) -> List[ast.AST]:
+    """Right-hand sides of ``target = <expr>`` in *fn*; *target* is a local name or a dotted ``self.attr``."""
+    out: List[ast.AST] = []
+    for n in walk_no_nested(fn):
+        if isinstance(n, (ast.Assign, ast.AnnAssign)):
+            out.extend(_value_for(n, target))
+    return out
+
+
+def _slice_exprs(fn: ast.AST, e: Optional[ast.AST]) -> List[ast.AST]:
+    """*e* and every right-hand side its locals are (transitively) built from."""
+    out: List[ast.AST] = []
+    seen: Set[str] = set()
+    todo: List[ast.AST] = [e] if e is not None else []
+    while todo:
+        x = todo.pop()
+        out.append(x)
+        for n in ast.walk(x):
+            if isinstance(n, ast.Name) and n.id not in seen:
+                seen.add(n.id)
+                todo.extend(_assigned(fn, n.id))
+    return out
+
+
+def _origins(fn: ast.AST, e: Optional[ast.AST], keep_none: bool = False) -> List[ast.AST]:
+    """Non-name expressions *e* may evaluate to: locals / ``self.attr`` are followed through plain assignments,
+    conditional expressions and ``cast(T, x)`` are split/unwrapped; unassigned names (parameters, globals) stay."""
+    out: List[ast.AST] = []
+    seen: Set[str] = set()
+
+    def rec(x: Optional[ast.AST]) -> None:
+        if x is None:
+            return
+        if isinstance(x, ast.IfExp):
+            rec(x.body)
+            rec(x.orelse)
+            return
+        if isinstance(x, ast.Call) and call_attr(x) == "cast" and len(x.args) == 2:
+            rec(x.args[1])
+            return
+        if isinstance(x, (ast.Name, ast.Attribute)):
+            d = dotted_name(x)
+            vals = _assigned(fn, d) if d else []
+            if vals:
+                if d not in seen:
+                    seen.add(d)
+                    for v in vals:
+                        rec(v)
+                return
+        if _is_none(x) and not keep_none:
+            return
+        out.append(x)
+
+    rec(e)
+    return out
+
+
+def _slice_names(fn: ast.AST, e: Optional[ast.AST]) -> Set[str]:
+    """Dotted names occurring in the backward slice of *e* through plain assignments of *fn*."""
+    names: Set[str] = set()
+    todo: List[ast.AST] = [e] if e is not None else []
+    while todo:
+        x = todo.pop()
+        for n in ast.walk(x):
+            if isinstance(n, (ast.Name, ast.Attribute)):
+                d = dotted_name(n)
+                if d and d not in names:
+                    names.add(d)
+                    todo.extend(_assigned(fn, d))
+    return names
+
+
+def _keyed(e: ast.AST) -> Optional[Tuple[ast.AST, object]]:
+    """(mapping, key) for ``m[<const>]`` / ``m.get(<const>, ...)``."""
+    if isinstance(e, ast.Subscript) and isinstance(e.slice, ast.Constant):
+        return e.value, e.slice.value
+    if isinstance(e, ast.Call) and call_attr(e) == "get" and e.args and isinstance(e.args[0], ast.Constant) and isinstance(e.func, ast.Attribute):
+        return e.func.value, e.args[0].value
+    return None
+
+
+def _copied_operand(e: ast.AST) -> Optional[ast.AST]:
+    """x for ``dict(x)`` / ``x.copy()`` / ``copy.copy(x)`` / ``copy.deepcopy(x)`` / ``{**x}``."""
+    if isinstance(e, ast.Call):
+        a = call_attr(e)
+        if a in ("dict", "deepcopy") and len(e.args) == 1 and not e.keywords:
+            return e.args[0]
+        if a == "copy":
+            if e.args and len(e.args) == 1:
+                return e.args[0]
+            if not e.args and isinstance(e.func, ast.Attribute):
+                return e.func.value
+    if isinstance(e, ast.Dict) and len(e.keys) == 1 and e.keys[0] is None:
+        return e.values[0]
+    return None
+
+
+def _ctor_of(fn: ast.AST, e: Optional[ast.AST], cls: str) -> bool:
+    vals = _origins(fn, e)
+    return bool(vals) and all(isinstance(v, ast.Call) and (call_name(v) or "").split(".")[-1] == cls for v in vals)
+
+
+def _params(fn: ast.AST) -> List[str]:
+    a = fn.args
+    return [x.arg for x in a.posonlyargs + a.args + a.kwonlyargs]
+
+
+# ---------------------------------------------------------------------------------------------------------
+
 def run(repo: Repo, R: Report) -> None:
     R.assume(
         "yaml.safe_load and dataclasses.asdict are deterministic; sha256 is collision-free for practical purposes",
         "trace driver / emitter calls do not raise",
+        "RunSpaceLaunch.id is never None (every return of create_launch is classified by C09-D4: truthy explicit id, hex digest or generated hex)",
     )
     R.undecided("run i produces the same result and trace content as a standalone run given run i's context (needs execution); only the structural no-leak conditions are decided")
 
-    # ------------------------------------------------------------------ D1 spec id
-    r_sid = R.rule("C09-D1-one-spec-id", "inspection and runtime normalise the run-space block identically (same normal form, same json.dumps options, same prefix) and hash the same representation (asdict of the parsed block)", 5)
+    run_nf = nfunc(repo, CLI, "_run")
+    spec_id_rules(repo, R, run_nf)
+    g, loop, proc, launch_names = launch_bracket_rules(repo, R, run_nf)
+    emitter_state_rules(repo, R)
+    freshness_rules(repo, R, run_nf, g, loop, proc, launch_names)
+    launch_id_rules(repo, R)
+
+
+# ------------------------------------------------------------------------------------------------ D1 spec id
+
+def spec_id_rules(repo: Repo, R: Report, run_nf: ast.AST) -> None:
+    r_sid = R.rule("C09-D1-one-spec-id", "inspection and runtime normalise the run-space block identically (same normal form, same json.dumps options, same prefix) and hash the same representation (asdict of the parsed block, the one that is expanded into the plan)", 5)
     rscf = repo.func(IDENT, "RunSpaceIdentityService._rscf_v1")
     inner = next((n for n in ast.walk(rscf) if isinstance(n, FuncNode) and n is not rscf), None)
     twin = repo.func(BUILDER, "_normalize_run_space")
@@ -79,6 +236,7 @@ def run(repo: Repo, R: Report) -> None:
     nf_b = alpha_normal_form(twin, {"Mapping": "dict"})
     R.check(nf_a == nf_b, r_sid, IDENT, "RunSpaceIdentityService._rscf_v1.normalize", "normal form equals inspection.builder._normalize_run_space",
             "the runtime and the inspection normaliser of the run-space block differ: `inspect` prints a different spec id than the trace carries (and/or plans that differ are identified)", inner.lineno)
+
     # json.dumps options
     def dumps_opts(fn) -> Optional[Dict[str, str]]:
         for c in calls_in(fn):
@@ -86,37 +244,66 @@ def run(repo: Repo, R: Report) -> None:
                 return {k.arg: ast.unparse(k.value) for k in c.keywords if k.arg}
         return None
     csid = repo.func(BUILDER, "_compute_run_space_spec_id")
-    oa, ob = dumps_opts(rscf), dumps_opts(csid)
+    csid_nf = nfunc(repo, BUILDER, "_compute_run_space_spec_id", keep=("_normalize_run_space", "_parse_run_space_block"), copyprop="all")
+    oa, ob = dumps_opts(nfunc(repo, IDENT, "RunSpaceIdentityService._rscf_v1")), dumps_opts(csid_nf)
     R.check(oa is not None and oa == ob, r_sid, BUILDER, "_compute_run_space_spec_id", f"json.dumps options {ob}", f"serialisation options differ between runtime {oa} and inspection {ob}", csid.lineno)
-    # prefix bytes
+
+    # prefix bytes (module constants are substituted by the normal form)
     def byte_consts(fn) -> Set[bytes]:
         return {n.value for n in ast.walk(fn) if isinstance(n, ast.Constant) and isinstance(n.value, bytes)}
-    comp = repo.func(IDENT, "RunSpaceIdentityService.compute")
-    pa = {b for b in byte_consts(comp) if b.startswith(b"semantiva:rscf")}
-    pb = {b for b in byte_consts(csid) if b.startswith(b"semantiva:")}
+    comp_nf = nfunc(repo, IDENT, "RunSpaceIdentityService.compute")
+    pa = {b for b in byte_consts(comp_nf) if b.startswith(b"semantiva:rscf")}
+    pb = {b for b in byte_consts(csid_nf) if b.startswith(b"semantiva:")}
     R.check(pa == pb and len(pa) == 1, r_sid, BUILDER, "_compute_run_space_spec_id", f"hash prefix {sorted(pb)}", f"hash prefixes differ: runtime {sorted(pa)} vs inspection {sorted(pb)}", csid.lineno)
-    # argument provenance: both hash asdict(<parsed run space>)
-    run_fn = repo.func(CLI, "_run")
-    cli_arg = None
-    for c in calls_in(run_fn):
-        if call_attr(c) == "compute" and "identity" in (call_name(c) or ""):
-            cli_arg = c.args[0] if c.args else None
-    vals = assigned_value(run_fn, cli_arg.id) if isinstance(cli_arg, ast.Name) else ([cli_arg] if cli_arg is not None else [])
-    cli_parsed = bool(vals) and all(isinstance(v, ast.Call) and call_attr(v) == "asdict" and "pipeline_cfg.run_space" in ast.unparse(v) for v in vals)
-    R.check(cli_parsed, r_sid, CLI, "_run", "identity_service.compute(asdict(pipeline_cfg.run_space))", "the CLI does not hash asdict(parsed run space)", run_fn.lineno)
-    norm_call = next((c for c in calls_in(csid) if call_attr(c) == "_normalize_run_space"), None)
-    insp_parsed = norm_call is not None and norm_call.args and isinstance(norm_call.args[0], ast.Call) and call_attr(norm_call.args[0]) == "asdict" and any(call_attr(x) == "_parse_run_space_block" for x in ast.walk(norm_call.args[0]) if isinstance(x, ast.Call))
+
+    # argument provenance: the CLI hashes asdict(<parsed run space>), the same object it expands into the plan
+    comp_calls = [c for c in calls_in(run_nf) if call_attr(c) == "compute" and isinstance(c.func, ast.Attribute) and _ctor_of(run_nf, c.func.value, "RunSpaceIdentityService")]
+    if len(comp_calls) != 1:
+        raise AnalysisError(f"_run: expected one RunSpaceIdentityService().compute call, found {len(comp_calls)}")
+    cc = comp_calls[0]
+    cli_arg = cc.args[0] if cc.args else kwarg(cc, "run_space_spec")
+    vals = _origins(run_nf, cli_arg)
+    hashed = [v.args[0] for v in vals if isinstance(v, ast.Call) and call_attr(v) == "asdict" and len(v.args) == 1]
+    plan_calls = [c for c in calls_in(run_nf) if call_attr(c) == "expand_run_space" and c.args]
+    if len(plan_calls) != 1:
+        raise AnalysisError(f"_run: expected one expand_run_space call, found {len(plan_calls)}")
+    planned_from = _origins(run_nf, plan_calls[0].args[0])
+    parsed = lambda e: isinstance(e, ast.Attribute) and e.attr == "run_space" and any(isinstance(v, ast.Call) and call_attr(v) == "parse_pipeline_config" for v in _origins(run_nf, e.value))
+    cli_parsed = bool(vals) and len(hashed) == len(vals) and all(parsed(h) for hs in hashed for h in _origins(run_nf, hs)) and len(planned_from) == 1 and all(_same(h, planned_from[0]) for hs in hashed for h in _origins(run_nf, hs))
+    R.check(cli_parsed, r_sid, CLI, "_run", "identity_service.compute(asdict(pipeline_cfg.run_space))", "the CLI does not hash asdict(parsed run space) of the very block it expands into the plan", cc.lineno)
+    norm_call = next((c for c in calls_in(csid_nf) if call_attr(c) == "_normalize_run_space"), None)
+    insp_vals = _origins(csid_nf, norm_call.args[0]) if norm_call is not None and norm_call.args else []
+    insp_parsed = bool(insp_vals) and all(
+        isinstance(v, ast.Call) and call_attr(v) == "asdict" and len(v.args) == 1 and any(isinstance(o, ast.Call) and call_attr(o) == "_parse_run_space_block" for o in _origins(csid_nf, v.args[0])) for v in insp_vals)
     R.check(bool(insp_parsed), r_sid, BUILDER, "_compute_run_space_spec_id", "normalises asdict(_parse_run_space_block(block))", "inspection hashes a different representation of the run-space block than the runtime (raw mapping vs parsed configuration with defaults): spec ids never agree", csid.lineno)
 
-    # ------------------------------------------------------------------ D2 launch bracket
-    r_br = R.rule("C09-D2-launch-bracket", "after emit_start every exit of _run passes exactly one emit_end, carrying planned_runs = number of planned runs and completed_runs = a counter incremented once per iteration after pipeline.process returned; a non-success exit sets status", 6)
 
-    def fold(test: ast.AST) -> Optional[bool]:
-        names = {x.id for x in ast.walk(test) if isinstance(x, ast.Name)}
-        if names and names <= {"run_space_emitter", "run_space_launch_id"} and not any(isinstance(x, ast.Call) for x in ast.walk(test)):
-            ev = _orch.make_fold(names)(test)
-            return ev
-        return None
+# ----------------------------------------------------------------------------------------- D2 launch bracket
+
+def launch_bracket_rules(repo: Repo, R: Report, run_nf: ast.AST):
+    r_br = R.rule("C09-D2-launch-bracket", "after emit_start every exit of _run passes exactly one emit_end for the same (launch id, attempt), carrying planned_runs = number of planned runs and completed_runs = a counter incremented once per iteration after pipeline.process returned; a non-success exit sets status", 7)
+
+    def has_call(node: ast.AST, attr: str) -> bool:
+        return any(call_attr(c) == attr for c in calls_in(node))
+
+    # roles: the emitter (receiver of emit_start / emit_end), the launch (result of create_launch), names holding launch.id
+    emitters = {c.func.value.id for c in calls_in(run_nf) if call_attr(c) in ("emit_start", "emit_end") and isinstance(c.func, ast.Attribute) and isinstance(c.func.value, ast.Name)}
+    launches: Set[str] = set()
+    for n in walk_no_nested(run_nf):
+        if isinstance(n, (ast.Assign, ast.AnnAssign)) and isinstance(n.value, ast.Call) and call_attr(n.value) == "create_launch":
+            for t in (n.targets if isinstance(n, ast.Assign) else [n.target]):
+                if isinstance(t, ast.Name):
+                    launches.add(t.id)
+    if len(launches) != 1:
+        raise AnalysisError(f"_run: expected one `<launch> = ...create_launch(...)`, found {sorted(launches)}")
+    launch = next(iter(launches))
+
+    def is_launch_attr(e: Optional[ast.AST], attr: str) -> bool:
+        vals = _origins(run_nf, e)
+        return bool(vals) and all(isinstance(v, ast.Attribute) and v.attr == attr and isinstance(v.value, ast.Name) and v.value.id == launch for v in vals)
+
+    id_names = {x.id for n in walk_no_nested(run_nf) if isinstance(n, (ast.Assign, ast.AnnAssign)) and n.value is not None
+                for t in (n.targets if isinstance(n, ast.Assign) else [n.target]) for x in ast.walk(t) if isinstance(x, ast.Name) and isinstance(x.ctx, ast.Store) and is_launch_attr(x, "id")}
 
     def may_raise(part: ast.AST) -> Set[str]:
         for n in walk_no_nested(part):
@@ -124,14 +311,49 @@ def run(repo: Repo, R: Report) -> None:
                 return {EXC}
             if isinstance(n, ast.Call):
                 d = call_name(n) or ""
-                if d == "print" or d.split(".")[0] in ("logger", "run_space_emitter") or d in ("isinstance", "len", "dict", "repr", "enumerate", "sorted"):
+                if d == "print" or d.split(".")[0] in ({"logger"} | emitters) or d in ("isinstance", "len", "dict", "repr", "enumerate", "sorted"):
                     continue
                 return {EXC, BASE}
         return set()
 
-    g = CFG(run_fn, fold=fold, may_raise=may_raise)
+    # pass 1 (nothing folded): which names are certainly not None once emit_start has run and are not rebound afterwards
+    g0 = CFG(run_nf, may_raise=may_raise)
+    starts0 = [n for n in g0.nodes if n.kind == "stmt" and n.ast is not None and has_call(n.ast, "emit_start")]
+    if len(starts0) != 1:
+        raise AnalysisError(f"_run: expected one emit_start site, found {len(starts0)}")
+    start_call = next(c for c in calls_in(starts0[0].ast) if call_attr(c) == "emit_start")
+    after0 = g0.reach([t for t, lab in g0.succ[starts0[0].id] if lab == "n"])
+
+    def stores(n, name: str) -> bool:
+        a = n.ast
+        if a is None or n.kind not in ("stmt", "for", "with", "except"):
+            return False
+        if n.kind == "except":
+            return getattr(a, "name", None) == name
+        tgt = a.targets if isinstance(a, ast.Assign) else [a.target] if isinstance(a, (ast.AnnAssign, ast.AugAssign, ast.For)) else []
+        return any(isinstance(x, ast.Name) and x.id == name for t in tgt for x in ast.walk(t))
+
+    known: Set[str] = set()
+    for nm in sorted(emitters | id_names):
+        if any(stores(g0.nodes[i], nm) for i in after0):
+            continue  # rebound after the start record: nothing is known about it in the finally block
+        if nm in emitters and isinstance(start_call.func.value, ast.Name) and start_call.func.value.id == nm:
+            known.add(nm)  # emit_start was just called on it
+        elif nm in id_names:
+            defs = reaching_defs(g0, nm, starts0[0].id)
+            if defs and all(_value_for(d.ast, nm) and all(is_launch_attr(v, "id") for v in _value_for(d.ast, nm)) for d in defs):
+                known.add(nm)
+
+    def fold(test: ast.AST) -> Optional[bool]:
+        names = {x.id for x in ast.walk(test) if isinstance(x, ast.Name)}
+        if names and names <= known and not any(isinstance(x, ast.Call) for x in ast.walk(test)):
+            return _orch.make_fold(names)(test)
+        return None
+
+    g = CFG(run_nf, fold=fold, may_raise=may_raise)
+
     def has(n, attr) -> bool:
-        return n.ast is not None and n.kind == "stmt" and any(call_attr(c) == attr for c in calls_in(n.ast))
+        return n.ast is not None and n.kind == "stmt" and has_call(n.ast, attr)
     starts = [n for n in g.nodes if has(n, "emit_start")]
     ends = [n for n in g.nodes if has(n, "emit_end")]
     if len(starts) != 1:
@@ -156,19 +378,28 @@ def run(repo: Repo, R: Report) -> None:
     if loop is None:
         raise AnalysisError("_run: run loop not found")
     R.check(not any(a is loop for a in ancestors(starts[0].ast)) and proc[0].id in g.reach([starts[0].id]), r_br, CLI, "_run", "emit_start once, before the run loop", "run_space_start is emitted inside / after the run loop", starts[0].line)
-    # summary counts
+    # start and end name the same launch: (launch.id, launch.attempt) of the one create_launch result
     end_call = next(c for c in calls_in(ends[0].ast) if call_attr(c) == "emit_end") if ends else None
+    def launch_attr_after_start(e: Optional[ast.AST], attr: str) -> bool:
+        # a local read after emit_start: its definitions reaching emit_start are all `launch.<attr>` and it is not rebound later
+        if isinstance(e, ast.Name) and _assigned(run_nf, e.id):
+            defs = reaching_defs(g0, e.id, starts0[0].id)
+            return bool(defs) and not any(stores(g0.nodes[i], e.id) for i in after0) and all(_value_for(d.ast, e.id) and all(is_launch_attr(v, attr) for v in _value_for(d.ast, e.id)) for d in defs)
+        return is_launch_attr(e, attr)
+    same = end_call is not None and all(launch_attr_after_start(kwarg(c, k), a) for c in (start_call, end_call) for k, a in (("run_space_launch_id", "id"), ("run_space_attempt", "attempt")))
+    R.check(same, r_br, CLI, "_run", "emit_start / emit_end carry (launch.id, launch.attempt) of the created launch", "run_space_start and run_space_end are not keyed by the id and attempt of the launch create_launch returned: the bracket does not close / the attempt is untruthful", ends[0].line if ends else starts[0].line)
+    # summary counts
     summ = kwarg(end_call, "summary") if end_call is not None else None
-    sdefs = assigned_value(run_fn, summ.id) if isinstance(summ, ast.Name) else ([summ] if summ is not None else [])
-    lit = next((v for v in sdefs if isinstance(v, ast.Dict)), None)
+    lit = next((v for v in _origins(run_nf, summ) if isinstance(v, ast.Dict)), None)
     keys = {k.value: v for k, v in zip(lit.keys, lit.values) if isinstance(k, ast.Constant)} if lit is not None else {}
     planned, completed = keys.get("planned_runs"), keys.get("completed_runs")
-    pl_defs = assigned_value(run_fn, planned.id) if isinstance(planned, ast.Name) else []
-    ok_planned = bool(pl_defs) and all(isinstance(v, ast.Call) and call_attr(v) == "len" and dotted_name(v.args[0]) == dotted_name(loop.iter.args[0] if isinstance(loop.iter, ast.Call) else loop.iter) for v in pl_defs)
+    it = loop.iter.args[0] if isinstance(loop.iter, ast.Call) and loop.iter.args else loop.iter
+    pl_defs = _origins(run_nf, planned)
+    ok_planned = bool(pl_defs) and all(isinstance(v, ast.Call) and call_attr(v) == "len" and len(v.args) == 1 and _same(v.args[0], it) for v in pl_defs)
     R.check(ok_planned, r_br, CLI, "_run", "summary.planned_runs = len(runs)", "planned_runs is not the length of the list the loop iterates", ends[0].line if ends else 0)
     cname = completed.id if isinstance(completed, ast.Name) else None
     incs = [n for n in g.nodes if n.ast is not None and isinstance(n.ast, ast.AugAssign) and dotted_name(n.ast.target) == cname and isinstance(n.ast.op, ast.Add) and isinstance(n.ast.value, ast.Constant) and n.ast.value.value == 1]
-    inits = [v for v in assigned_value(run_fn, cname)] if cname else []
+    inits = _assigned(run_nf, cname) if cname else []
     ok_c = cname is not None and len(incs) == 1 and len(inits) == 1 and isinstance(inits[0], ast.Constant) and inits[0].value == 0
     if ok_c:
         inc = incs[0]
@@ -186,65 +417,258 @@ def run(repo: Repo, R: Report) -> None:
         per_iter = set().union(*[c2.get(h, set()) for h in heads]) if heads else set()
         before = g.reach([inc.id], blocked=set(heads))
         ok_c = per_iter == {1} and proc[0].id not in before
-    R.check(ok_c, r_br, CLI, "_run", f"summary.completed_runs = {cname} (+1 after each successful process)", "completed_runs is not incremented exactly once per iteration after pipeline.process returned: the count is untruthful when a run fails", ends[0].line if ends else 0)
-    # status on failure
-    fin_src = ast.unparse(stmt_of(ends[0].ast)) if ends else ""
-    status_sets = [n for n in walk_no_nested(run_fn) if isinstance(n, ast.Assign) and any(isinstance(t, ast.Subscript) and dotted_name(t.value) == (summ.id if isinstance(summ, ast.Name) else "") and isinstance(t.slice, ast.Constant) and t.slice.value == "status" for t in n.targets)]
-    guarded = [s for s in status_sets if any(isinstance(a, ast.If) and "exit_code" in ast.unparse(a.test) for a in ancestors(s))]
-    R.check(len(guarded) >= 1, r_br, CLI, "_run", "summary.status set when exit_code != success", "a failed/interrupted launch is not marked in run_space_end", ends[0].line if ends else 0)
+    R.check(ok_c, r_br, CLI, "_run", "summary.completed_runs = counter (+1 after each successful process)", "completed_runs is not incremented exactly once per iteration after pipeline.process returned: the count is untruthful when a run fails", ends[0].line if ends else 0)
+    # status on failure: the summary gets a status under a test on the variable the exception handlers of the run loop set
+    outer_try = next((a for a in ancestors(loop) if isinstance(a, ast.Try)), None)
+    handler_vars: Set[str] = set()
+    if outer_try is not None:
+        for h in outer_try.handlers:
+            for n in walk_no_nested(h):
+                if isinstance(n, ast.Assign):
+                    handler_vars |= {t.id for t in n.targets if isinstance(t, ast.Name)}
+    summ_name = dotted_name(summ) if summ is not None else None
+    status_sets = [n for n in walk_no_nested(run_nf) if isinstance(n, ast.Assign) and any(isinstance(t, ast.Subscript) and summ_name and dotted_name(t.value) == summ_name and isinstance(t.slice, ast.Constant) and t.slice.value == "status" for t in n.targets)]
+    guarded = [s for s in status_sets if any(isinstance(a, ast.If) and {x.id for x in ast.walk(a.test) if isinstance(x, ast.Name)} & handler_vars for a in ancestors(s))]
+    R.check(len(guarded) >= 1 and len(outer_try.handlers if outer_try else []) >= 1, r_br, CLI, "_run", "summary.status set when the exit code is not success", "a failed/interrupted launch is not marked in run_space_end", ends[0].line if ends else 0)
+    return g, loop, proc[0], (launch, is_launch_attr)
 
-    # ------------------------------------------------------------------ D3 freshness and linkage
-    r_fr = R.rule("C09-D3-per-run-freshness", "each run starts from a context built inside the loop body from the shared --context mapping plus that run's values (nothing carried between iterations); run metadata carries a copy of the context, the 0-based index and the launch FK; execute forwards them to pipeline_start", 8)
+
+# ------------------------------------------------------------------------- D2b suppression state of the emitter
+
+def emitter_state_rules(repo: Repo, R: Report) -> None:
+    r_es = R.rule("C09-D2-emitter-state", "whatever lets RunSpaceTraceEmitter skip a record lives in the emitter instance (created in __init__) - no class-level or module-level container is consulted or filled, so a later launch with the same (launch id, attempt) still gets its run_space_start / run_space_end", 2)
+    cls = repo.cls(EMITTER, "RunSpaceTraceEmitter")
+    mod = repo.module(EMITTER)
+    init = next((st for st in cls.body if isinstance(st, FuncNode) and st.name == "__init__"), None)
+    if init is None:
+        raise AnalysisError("RunSpaceTraceEmitter.__init__ vanished")
+    self_name = init.args.args[0].arg if init.args.args else "self"
+    init_params = set(_params(init)) - {self_name}
+    inst: Dict[str, List[ast.AST]] = {}
+    for n in walk_no_nested(init):
+        tgts = n.targets if isinstance(n, ast.Assign) else [n.target] if isinstance(n, ast.AnnAssign) and n.value is not None else []
+        for t in tgts:
+            if isinstance(t, ast.Attribute) and isinstance(t.value, ast.Name) and t.value.id == self_name:
+                inst.setdefault(t.attr, []).append(n.value)
+    class_level: Dict[str, ast.AST] = {}
+    for st in cls.body:
+        if isinstance(st, ast.Assign):
+            for t in st.targets:
+                if isinstance(t, ast.Name):
+                    class_level[t.id] = st
+        elif isinstance(st, ast.AnnAssign) and isinstance(st.target, ast.Name) and st.value is not None:
+            class_level[st.target.id] = st
+    module_level: Dict[str, ast.AST] = {}
+    for st in mod.tree.body:
+        tgts = st.targets if isinstance(st, ast.Assign) else [st.target] if isinstance(st, ast.AnnAssign) and st.value is not None else []
+        for t in tgts:
+            if isinstance(t, ast.Name):
+                module_level[t.id] = st
+
+    def fresh_or_param(v: ast.AST) -> bool:
+        if isinstance(v, ast.Name):
+            return v.id in init_params
+        if isinstance(v, (ast.Dict, ast.List, ast.Set, ast.Tuple, ast.Constant, ast.ListComp, ast.SetComp, ast.DictComp)):
+            return True
+        if isinstance(v, ast.Call):
+            return (call_name(v) or "").split(".")[-1] in FRESH_CTORS and all(fresh_or_param(a) for a in v.args)
+        return False
+
+    def mutable_value(st: ast.AST) -> bool:
+        v = st.value
+        return isinstance(v, (ast.Dict, ast.List, ast.Set, ast.ListComp, ast.SetComp, ast.DictComp)) or (isinstance(v, ast.Call) and (call_name(v) or "").split(".")[-1] in FRESH_CTORS)
+
+    for meth in ("emit_start", "emit_end"):
+        qual = f"RunSpaceTraceEmitter.{meth}"
+        fn = nfunc(repo, EMITTER, qual)
+        me = fn.args.args[0].arg if fn.args.args else "self"
+        local_stores = {x.id for x in ast.walk(fn) if isinstance(x, ast.Name) and isinstance(x.ctx, ast.Store)} | set(_params(fn))
+        seen_attr: Set[str] = set()
+        for n in walk_no_nested(fn):
+            if isinstance(n, ast.Global):
+                R.violation(r_es, EMITTER, qual, norm(n), "run-space emission consults / fills module-level state that outlives the emitter", n.lineno)
+            if isinstance(n, ast.Attribute) and isinstance(n.value, ast.Name) and n.value.id == me:
+                a = n.attr
+                if a in seen_attr or a == "__class__" or (a not in inst and a not in class_level and repo.method(mod, cls, a) is not None):
+                    if a == "__class__":
+                        R.violation(r_es, EMITTER, qual, norm(stmt_of(n)), "run-space emission goes through class-level state shared by every emitter of the process", n.lineno)
+                    continue
+                seen_attr.add(a)
+                if a in inst:
+                    ok = all(fresh_or_param(v) for v in inst[a])
+                    R.check(ok, r_es, EMITTER, qual, f"self.{a} is per-emitter state set in __init__", f"`self.{a}` is bound in __init__ to an object that outlives the emitter (`{norm(inst[a][0])[:60]}`): a record suppressed for one launch stays suppressed for later launches of the process", n.lineno)
+                else:
+                    R.violation(r_es, EMITTER, qual, f"self.{a} is per-emitter state set in __init__",
+                                f"`self.{a}` is not created per emitter in __init__ ({'class-level attribute shared by all emitters of the process' if a in class_level else 'never initialised'}): a second launch with the same (launch id, attempt) in this process loses its run_space_start / run_space_end", n.lineno)
+            elif isinstance(n, ast.Attribute) and isinstance(n.value, ast.Name) and n.value.id == cls.name and n.attr in class_level:
+                R.violation(r_es, EMITTER, qual, norm(stmt_of(n)), f"`{cls.name}.{n.attr}` is class-level state shared by every emitter of the process", n.lineno)
+            elif isinstance(n, ast.Name) and isinstance(n.ctx, ast.Load) and n.id in module_level and n.id not in local_stores and mutable_value(module_level[n.id]):
+                R.violation(r_es, EMITTER, qual, norm(stmt_of(n)), f"module-level container `{n.id}` is consulted / filled while emitting: it outlives the emitter, so records of a later launch are affected by earlier ones", n.lineno)
+            elif isinstance(n, ast.Call) and call_name(n) == "type" and len(n.args) == 1 and isinstance(n.args[0], ast.Name) and n.args[0].id == me:
+                R.violation(r_es, EMITTER, qual, norm(stmt_of(n)), "run-space emission goes through class-level state shared by every emitter of the process", n.lineno)
+
+
+# --------------------------------------------------------------------------------- D3 freshness and linkage
+
+def freshness_rules(repo: Repo, R: Report, run_nf: ast.AST, g: CFG, loop: ast.For, proc, launch_names) -> None:
+    launch, is_launch_attr = launch_names
+    r_fr = R.rule("C09-D3-per-run-freshness", "each run starts from a context built inside the loop body from the shared --context mapping plus that run's values (nothing carried between iterations); run metadata carries a copy of that very context, the 0-based index and the launch FK; execute forwards them to pipeline_start", 8)
     pay = next((c for c in calls_in(loop) if call_attr(c) == "ContextType" and c.args), None)
     ctx_name = dotted_name(pay.args[0]) if pay is not None else None
-    defs_in_loop = [n for n in ast.walk(loop) if isinstance(n, ast.Assign) and any(isinstance(t, ast.Name) and t.id == ctx_name for t in n.targets)]
-    all_defs = assigned_value(run_fn, ctx_name) if ctx_name else []
+    if ctx_name is None:
+        raise AnalysisError("_run: initial payload `ContextType(<per-run mapping>)` not found in the run loop")
+    defs_in_loop = [n for n in ast.walk(loop) if isinstance(n, (ast.Assign, ast.AnnAssign)) and n.value is not None and any(isinstance(t, ast.Name) and t.id == ctx_name for t in (n.targets if isinstance(n, ast.Assign) else [n.target]))]
+    all_defs = _assigned(run_nf, ctx_name)
     fresh = bool(defs_in_loop) and len(defs_in_loop) == len(all_defs) and all(
-        (isinstance(d.value, ast.Call) and call_attr(d.value) in ("dict", "copy", "deepcopy")) or isinstance(d.value, (ast.Dict, ast.DictComp)) for d in defs_in_loop)
-    R.check(fresh, r_fr, CLI, "_run", f"{ctx_name} = dict(...) inside the run loop", "the per-run context mapping is created outside the loop (or aliased): keys written by run i are visible to run i+1", loop.lineno)
+        (isinstance(d.value, ast.Call) and call_attr(d.value) in COPY_CALLS) or isinstance(d.value, (ast.Dict, ast.DictComp)) for d in defs_in_loop)
+    R.check(fresh, r_fr, CLI, "_run", "run context = dict(...) inside the run loop", "the per-run context mapping is created outside the loop (or aliased): keys written by run i are visible to run i+1", loop.lineno)
     # the shared mapping is never mutated inside the loop
-    shared = set()
+    shared: Set[str] = set()
     for d in defs_in_loop:
-        shared |= {x.id for x in ast.walk(d.value) if isinstance(x, ast.Name)} - {"dict"}
+        shared |= {x.id for x in ast.walk(d.value) if isinstance(x, ast.Name)} - {"dict", "copy"}
     muts = [m for m in mutation_sites(loop, shared)]
-    R.check(not muts, r_fr, CLI, "_run", f"shared mapping(s) {sorted(shared)} not mutated in the loop", f"`{norm(muts[0][0])[:60]}` mutates state shared by all runs" if muts else "", loop.lineno)
+    R.check(not muts, r_fr, CLI, "_run", "shared mapping(s) the run context is copied from are not mutated in the loop", f"`{norm(muts[0][0])[:60]}` mutates state shared by all runs" if muts else "", loop.lineno)
     # run values applied
     lv = loop.target.elts[1].id if isinstance(loop.target, ast.Tuple) and len(loop.target.elts) == 2 and isinstance(loop.target.elts[1], ast.Name) else None
     idx = loop.target.elts[0].id if isinstance(loop.target, ast.Tuple) and isinstance(loop.target.elts[0], ast.Name) else None
     upd = [c for c in calls_in(loop) if call_attr(c) == "update" and dotted_name(c.func.value) == ctx_name and c.args and dotted_name(c.args[0]) == lv]
-    R.check(bool(upd) and isinstance(loop.iter, ast.Call) and call_attr(loop.iter) == "enumerate" and len(loop.iter.args) == 1, r_fr, CLI, "_run", f"{ctx_name}.update({lv}) for {idx}, {lv} in enumerate(runs)", "run i does not receive exactly run i's values (or indices are not 0-based plan order)", loop.lineno)
+    spread = [d for d in defs_in_loop if isinstance(d.value, ast.Dict) and any(k is None and dotted_name(v) == lv for k, v in zip(d.value.keys, d.value.values))]
+    R.check(bool(upd or spread) and lv is not None and isinstance(loop.iter, ast.Call) and call_attr(loop.iter) == "enumerate" and len(loop.iter.args) == 1 and not loop.iter.keywords, r_fr, CLI, "_run", "run context updated with the run's values, for index, values in enumerate(runs)", "run i does not receive exactly run i's values (or indices are not 0-based plan order)", loop.lineno)
     # metadata literal
-    md = [n.value for n in ast.walk(loop) if isinstance(n, ast.Assign) and isinstance(n.value, ast.Dict) and any(isinstance(k, ast.Constant) and k.value == "run_space_index" for k in n.value.keys)]
+    md_assign = [n for n in ast.walk(loop) if isinstance(n, (ast.Assign, ast.AnnAssign)) and isinstance(n.value, ast.Dict) and any(isinstance(k, ast.Constant) and k.value == "run_space_index" for k in n.value.keys)]
+    md = [n.value for n in md_assign] or [d for d in ast.walk(loop) if isinstance(d, ast.Dict) and any(isinstance(k, ast.Constant) and k.value == "run_space_index" for k in d.keys)]
     if not md:
         raise AnalysisError("_run: run metadata literal not found")
     mk = {k.value: v for k, v in zip(md[0].keys, md[0].values) if isinstance(k, ast.Constant)}
-    R.check(dotted_name(mk.get("run_space_index")) == idx, r_fr, CLI, "_run", "metadata.run_space_index = loop index", "run_space_index is not the 0-based loop index", md[0].lineno)
+    R.check(dotted_name(mk.get("run_space_index")) == idx and idx is not None, r_fr, CLI, "_run", "metadata.run_space_index = loop index", "run_space_index is not the 0-based loop index", md[0].lineno)
+    # the recorded context is a copy of the mapping the run starts from, taken when that mapping is complete
     rc = mk.get("run_space_context")
-    R.check(isinstance(rc, ast.Call) and call_attr(rc) in ("dict", "copy", "deepcopy") and ctx_name in ast.unparse(rc), r_fr, CLI, "_run", "metadata.run_space_context = dict(run_context)", "the context recorded for the run is not a copy of this run's context (later mutation by the pipeline shows up in pipeline_start)", md[0].lineno)
-    R.check(dotted_name(mk.get("trace_context")) == "trace_context", r_fr, CLI, "_run", "metadata.trace_context = trace_context", "launch foreign key not attached to the run metadata", md[0].lineno)
-    setm = [n for n in g.nodes if has(n, "set_run_metadata")]
-    ok = bool(setm) and any(a is loop for a in ancestors(setm[0].ast)) and g.dominated_by_node(proc[0].id, setm[0].id)
-    R.check(ok, r_fr, CLI, "_run", "pipeline.set_run_metadata(...) every iteration before process", "run metadata is not staged for every run", loop.lineno)
+    op = _copied_operand(rc) if rc is not None else None
+    is_copy = op is not None
+    of_ctx = is_copy and dotted_name(op) == ctx_name
+    what = ("the context recorded for the run is not a copy of this run's context (later mutation by the pipeline shows up in pipeline_start)" if not is_copy else
+            f"pipeline_start records `{norm(op)}` instead of the mapping the run starts from (`{ctx_name}`, shared --context values plus the run's values): the recorded context does not reproduce the run")
+    R.check(bool(of_ctx), r_fr, CLI, "_run", "metadata.run_space_context = copy of the run context", what, md[0].lineno)
+    md_nodes = [n for n in g.nodes if n.kind == "stmt" and n.ast is not None and any(d is x for d in md for x in ast.walk(n.ast))]
+    heads = set(g.nodes_for(loop))
+    later = g.reach([m.id for m in md_nodes], blocked=heads) if md_nodes else {}
+    late_muts = [m for m, _r in mutation_sites(loop, {ctx_name}) if any(g.nodes[i].ast is not None and any(x is m for x in ast.walk(g.nodes[i].ast)) for i in later if i not in {n.id for n in md_nodes})]
+    R.check(not late_muts, r_fr, CLI, "_run", "run context complete before it is recorded", f"`{norm(late_muts[0])[:60]}` changes the run context after its copy was taken for pipeline_start" if late_muts else "", md[0].lineno)
+    # launch FK: a TraceContext filled from the created launch
+    tc = mk.get("trace_context")
+    tc_ok = isinstance(tc, ast.Name) and _ctor_of(run_nf, tc, "TraceContext")
+    fk_calls = [c for c in calls_in(run_nf) if call_attr(c) == "set_run_space_fk" and isinstance(c.func, ast.Attribute) and _same(c.func.value, tc)] if tc_ok else []
+    tc_ok = tc_ok and len(fk_calls) == 1 and is_launch_attr(kwarg(fk_calls[0], "launch_id"), "id") and is_launch_attr(kwarg(fk_calls[0], "attempt"), "attempt")
+    if tc_ok:
+        fk_node = next((n for n in g.nodes if n.kind == "stmt" and n.ast is not None and any(x is fk_calls[0] for x in ast.walk(n.ast))), None)
+        ctor_nodes = [n for n in g.nodes if n.kind == "stmt" and isinstance(n.ast, (ast.Assign, ast.AnnAssign)) and isinstance(n.ast.value, ast.Call) and (call_name(n.ast.value) or "").split(".")[-1] == "TraceContext"]
+        tc_ok = fk_node is not None and bool(ctor_nodes) and not g.must_pass([t for c in ctor_nodes for t, lab in g.succ[c.id] if lab == "n" and t != fk_node.id], list(heads), lambda n: n.id == fk_node.id)
+    R.check(bool(tc_ok), r_fr, CLI, "_run", "metadata.trace_context = TraceContext with set_run_space_fk(launch.id, launch.attempt)", "launch foreign key (id and attempt of the created launch) not attached to the run metadata", md[0].lineno)
+    # staged for every run before process, and what is staged is that mapping
+    md_names = {t.id for n in md_assign for t in (n.targets if isinstance(n, ast.Assign) else [n.target]) if isinstance(t, ast.Name)}
+
+    def stages(n) -> bool:
+        if n.kind != "stmt" or n.ast is None:
+            return False
+        for c in calls_in(n.ast):
+            if call_attr(c) == "set_run_metadata" and c.args:
+                if any((isinstance(x, ast.Name) and x.id in md_names) or any(x is d for d in md) for x in ast.walk(c.args[0])):
+                    return True
+        return False
+    body_starts = [t for h in heads for t, lab in g.succ[h] if lab == "T"]
+    bad = g.must_pass([s for s in body_starts if not stages(g.nodes[s])], [proc.id], stages) if body_starts else [(0, [])]
+    R.check(not bad, r_fr, CLI, "_run", "pipeline.set_run_metadata(...) every iteration before process", "run metadata is not staged for every run", loop.lineno, bad[0][1] if bad else None)
     # Pipeline: metadata consumed once per run
-    pp = repo.func(PIPE, "Pipeline._process")
-    src = ast.unparse(pp)
-    ok = "run_metadata=" in src and any(isinstance(n, ast.Assign) and any(dotted_name(t) == "self._run_metadata" for t in n.targets) and isinstance(n.value, ast.Constant) and n.value.value is None for n in ast.walk(pp))
+    pp = nfunc(repo, PIPE, "Pipeline._process")
+    ex_calls = [c for c in calls_in(pp) if call_attr(c) == "execute" and kwarg(c, "run_metadata") is not None]
+    ok = bool(ex_calls) and all(any(dotted_name(o) == "self._run_metadata" for o in _origins_attr_terminal(pp, kwarg(c, "run_metadata"))) for c in ex_calls) and any(
+        isinstance(n, ast.Assign) and any(dotted_name(t) == "self._run_metadata" for t in n.targets) and _is_none(n.value) for n in ast.walk(pp))
     R.check(ok, r_fr, PIPE, "Pipeline._process", "run_metadata passed to execute and cleared afterwards", "staged run metadata survives into the next run of the same Pipeline", pp.lineno)
+    # ... on every exit, also when the run raises: otherwise the next process() of the same Pipeline without staged
+    # metadata emits a pipeline_start carrying the failed run's index / context / launch FK
+    gp = CFG(pp)
+    ex_nodes = [n for n in gp.nodes if n.ast is not None and n.kind == "stmt" and any(call_attr(c) == "execute" and kwarg(c, "run_metadata") is not None for c in calls_in(n.ast))]
+    def _clears(n) -> bool:
+        return n.ast is not None and isinstance(n.ast, ast.Assign) and any(dotted_name(t) == "self._run_metadata" for t in n.ast.targets) and _is_none(n.ast.value)
+    for exn in ex_nodes:
+        starts = [t for t, _lab in gp.succ[exn.id]]
+        for label, exit_id in (("return", gp.ret_exit), ("raise(Exception)", gp.exc_exit), ("raise(BaseException)", gp.base_exit)):
+            miss = gp.must_pass([t for t in starts if not _clears(gp.nodes[t])], [exit_id], _clears)
+            # a start that is itself the exit (execute raises straight out of the function) never clears
+            direct = exit_id in starts
+            R.check(not miss and not direct, r_fr, PIPE, "Pipeline._process", f"self._run_metadata = None on exit {label} after execute", "staged run metadata survives a run that ends this way: a later run of the same Pipeline reports the previous run's index, context and launch", exn.line, miss[0][1] if miss else None)
     sm = repo.func(PIPE, "Pipeline.set_run_metadata")
-    ok = any(isinstance(n, ast.Assign) and isinstance(n.value, ast.Call) and call_attr(n.value) == "dict" for n in ast.walk(sm))
+    ok = any(isinstance(n, (ast.Assign, ast.AnnAssign)) and n.value is not None and (_copied_operand(n.value) is not None or (isinstance(n.value, ast.Call) and call_attr(n.value) == "dict")) for n in ast.walk(sm))
     R.check(ok, r_fr, PIPE, "Pipeline.set_run_metadata", "self._run_metadata = dict(metadata or {})", "run metadata stored by reference", sm.lineno)
-    # execute forwards the four kwargs
-    ex = repo.func(ORCH, _orch.EXECUTE)
-    stores = {}
-    for n in walk_no_nested(ex):
-        if isinstance(n, ast.Assign) and len(n.targets) == 1 and isinstance(n.targets[0], ast.Subscript) and dotted_name(n.targets[0].value) == "run_space_kwargs" and isinstance(n.targets[0].slice, ast.Constant):
-            stores[n.targets[0].slice.value] = n
-    for k in ("run_space_launch_id", "run_space_attempt", "run_space_index", "run_space_context"):
-        n = stores.get(k)
-        ok = n is not None and k in ast.unparse(n.value)
-        R.check(ok, r_fr, ORCH, _orch.EXECUTE, f"run_space_kwargs[{k!r}]", f"pipeline_start does not receive {k} from the run metadata / launch FK", n.lineno if n is not None else ex.lineno)
+
+    # execute forwards the four kwargs: each value originates from the run metadata / the launch FK under its own key
+    ex = nfunc(repo, ORCH, _orch.EXECUTE)
     sc = next((c for c in calls_in(ex) if call_attr(c) == "on_pipeline_start"), None)
-    R.check(sc is not None and any(k.arg is None and dotted_name(k.value) == "run_space_kwargs" for k in sc.keywords), r_fr, ORCH, _orch.EXECUTE, "on_pipeline_start(..., **run_space_kwargs)", "run-space linkage is not forwarded to pipeline_start", sc.lineno if sc else ex.lineno)
+    if sc is None:
+        raise AnalysisError("execute(): on_pipeline_start call vanished")
+    spreads = [dotted_name(k.value) for k in sc.keywords if k.arg is None and dotted_name(k.value)]
+    sent: Dict[str, List[ast.AST]] = {}
+    for k in sc.keywords:
+        if k.arg is not None and k.arg.startswith("run_space_"):
+            sent.setdefault(k.arg, []).append(k.value)
+    for n in walk_no_nested(ex):
+        if isinstance(n, ast.Assign) and len(n.targets) == 1 and isinstance(n.targets[0], ast.Subscript) and dotted_name(n.targets[0].value) in spreads and isinstance(n.targets[0].slice, ast.Constant):
+            sent.setdefault(n.targets[0].slice.value, []).append(n.value)
+        for sp in spreads:
+            if isinstance(n, (ast.Assign, ast.AnnAssign)) and n.value is not None and isinstance(n.value, ast.Dict) and any(dotted_name(t) == sp for t in (n.targets if isinstance(n, ast.Assign) else [n.target])):
+                for kk, vv in zip(n.value.keys, n.value.values):
+                    if isinstance(kk, ast.Constant):
+                        sent.setdefault(kk.value, []).append(vv)
+
+    def from_run_metadata(m: ast.AST) -> bool:
+        return "run_metadata" in _slice_names(ex, m)
+
+    def keyed_from(e: ast.AST, key: str, via_fk: bool) -> bool:
+        outs = _origins(ex, e)
+        if not outs:
+            return False
+        for o in outs:
+            kd = _keyed(o)
+            if kd is None or kd[1] != key:
+                return False
+            base = kd[0]
+            if not via_fk:
+                if not from_run_metadata(base):
+                    return False
+                continue
+            fks = _origins(ex, base)
+            if not fks:
+                return False
+            for f in fks:
+                if not (isinstance(f, ast.Call) and call_attr(f) == "as_run_space_fk" and isinstance(f.func, ast.Attribute)):
+                    return False
+                recv = _origins(ex, f.func.value)
+                if not recv or not all((_keyed(rv) or (None, None))[1] == "trace_context" and from_run_metadata(_keyed(rv)[0]) for rv in recv):
+                    return False
+        return True
+
+    for k, via_fk in (("run_space_launch_id", True), ("run_space_attempt", True), ("run_space_index", False), ("run_space_context", False)):
+        vs = sent.get(k, [])
+        ok = bool(vs) and all(keyed_from(v, k, via_fk) for v in vs)
+        ln = getattr(vs[0], "lineno", ex.lineno) if vs else ex.lineno
+        R.check(ok, r_fr, ORCH, _orch.EXECUTE, f"on_pipeline_start(..., {k}=...)", f"pipeline_start does not receive {k} from the run metadata / launch FK under that key", ln)
+    R.check(bool(sent), r_fr, ORCH, _orch.EXECUTE, "on_pipeline_start(..., **run_space_kwargs)", "run-space linkage is not forwarded to pipeline_start", sc.lineno)
+    # the FK object: set_run_space_fk stores launch_id / attempt in the attributes as_run_space_fk reports under those keys
+    setfk = repo.func(TCTX, "TraceContext.set_run_space_fk")
+    asfk = repo.func(TCTX, "TraceContext.as_run_space_fk")
+    reported: Dict[str, Optional[str]] = {}
+    for rv in ast.walk(asfk):
+        if isinstance(rv, ast.Return) and rv.value is not None:
+            for o in _origins(asfk, rv.value):
+                if isinstance(o, ast.Dict):
+                    for kk, vv in zip(o.keys, o.values):
+                        if isinstance(kk, ast.Constant):
+                            reported[kk.value] = dotted_name(vv)
+    for key, param in (("run_space_launch_id", "launch_id"), ("run_space_attempt", "attempt")):
+        attr = reported.get(key)
+        ok = attr is not None and any(isinstance(o, ast.Name) and o.id == param for o in _assigned(setfk, attr)) and len(_assigned(setfk, attr)) == 1
+        R.check(ok, r_fr, TCTX, "TraceContext.as_run_space_fk", f"{key} reports what set_run_space_fk({param}=...) stored", f"the launch FK reports under {key!r} something else than the {param} it was given", asfk.lineno)
+
     # per-run leak through the orchestrator: caller-owned canonical spec must not be mutated (shared with C04-D3b)
     from . import c04
 
@@ -254,34 +678,219 @@ def run(repo: Repo, R: Report) -> None:
     finally:
         R.rule_prefix = ""
 
-    # ------------------------------------------------------------------ D4 launch id derivation
-    r_l = R.rule("C09-D4-launch-id", "explicit launch id returned unchanged; idempotent id hashes only (inputs_id or spec_id, key) under a fixed prefix; only the generated path uses uuid; inputs id covers spec id and every file digest", 5)
-    cl = repo.func(LAUNCH, "RunSpaceLaunchManager.create_launch")
+
+def _origins_attr_terminal(fn: ast.AST, e: Optional[ast.AST]) -> List[ast.AST]:
+    """Like _origins but ``self.attr`` is a terminal (locals only are followed)."""
+    out: List[ast.AST] = []
+    seen: Set[str] = set()
+
+    def rec(x: Optional[ast.AST]) -> None:
+        if x is None:
+            return
+        if isinstance(x, ast.IfExp):
+            rec(x.body)
+            rec(x.orelse)
+            return
+        if isinstance(x, ast.Name):
+            vals = _assigned(fn, x.id)
+            if vals:
+                if x.id not in seen:
+                    seen.add(x.id)
+                    for v in vals:
+                        rec(v)
+                return
+        out.append(x)
+
+    rec(e)
+    return out
+
+
+# ------------------------------------------------------------------------------- D4 launch id derivation
+
+def launch_id_rules(repo: Repo, R: Report) -> None:
+    r_l = R.rule("C09-D4-launch-id", "explicit launch id returned unchanged; idempotent id hashes only (inputs_id or spec_id, key) under a fixed prefix; only the path without explicit id / key generates a uuid; every launch carries the requested attempt; inputs id covers spec id and every file digest", 7)
+    QUAL = "RunSpaceLaunchManager.create_launch"
+    cl = nfunc(repo, LAUNCH, QUAL, copyprop="all")
+    params = set(_params(cl))
+    for need in ("run_space_spec_id", "run_space_inputs_id", "provided_launch_id", "idempotency_key", "attempt"):
+        if need not in params:
+            raise AnalysisError(f"create_launch: parameter {need} vanished")
+    rebound = {x.id for x in ast.walk(cl) if isinstance(x, ast.Name) and isinstance(x.ctx, ast.Store)} & params
     gl = CFG(cl, may_raise=lambda p: set())
+    # field order of the RunSpaceLaunch dataclass (positional construction)
+    lc = repo.cls(LAUNCH, "RunSpaceLaunch")
+    fields = [st.target.id for st in lc.body if isinstance(st, ast.AnnAssign) and isinstance(st.target, ast.Name)]
+
+    def field(c: ast.Call, name: str) -> Optional[ast.AST]:
+        v = kwarg(c, name)
+        if v is None and name in fields and fields.index(name) < len(c.args):
+            v = c.args[fields.index(name)]
+        return v
+
+    def atom(param: str, truthy: bool) -> Callable[[ast.AST], Optional[bool]]:
+        def a(e: ast.AST) -> Optional[bool]:
+            if isinstance(e, ast.Name) and e.id == param:
+                return truthy
+            if isinstance(e, ast.Compare) and len(e.ops) == 1 and isinstance(e.left, ast.Name) and e.left.id == param and _is_none(e.comparators[0]):
+                if isinstance(e.ops[0], ast.IsNot):
+                    return truthy
+                if isinstance(e.ops[0], ast.Is):
+                    return not truthy
+            return None
+        return a
+
+    def only_when(node_id: int, param: str, truthy: bool) -> bool:
+        blocked = set()
+        for n in gl.nodes:
+            if n.kind in ("if", "while") and n.part is not None:
+                for e in edges_guaranteeing(n.part, atom(param, truthy)):
+                    blocked.add((n.id, e))
+        return bool(blocked) and node_id not in gl.reach([gl.entry], blocked_edges=blocked)
+
+    def uuid_based(e: ast.AST, depth: int = 3) -> bool:
+        mod = repo.module(LAUNCH)
+        todo: List[Tuple[ast.AST, int]] = [(e, depth)]
+        seen: Set[int] = set()
+        while todo:
+            x, d = todo.pop()
+            for c in ast.walk(x):
+                if isinstance(c, ast.Call):
+                    if (call_name(c) or "").split(".")[0] == "uuid":
+                        return True
+                    if d > 0:
+                        for _m, f in repo.resolve_call(mod, c):
+                            if id(f) not in seen and isinstance(f, FuncNode):
+                                seen.add(id(f))
+                                todo.append((f, d - 1))
+        return False
+
     rets = [n for n in gl.nodes if n.kind == "stmt" and isinstance(n.ast, ast.Return)]
-    kinds = []
+    if not rets:
+        raise AnalysisError("create_launch: no return found")
+    explicit, idem, generated, unknown = [], [], [], []
     for n in rets:
-        c = n.ast.value
-        idv = kwarg(c, "id") if isinstance(c, ast.Call) else None
-        kinds.append((n, idv))
-    exp = [n for n, v in kinds if dotted_name(v) == "provided_launch_id"]
-    R.check(len(exp) == 1 and gl.dominated_by_edge(exp[0].id, next((m.id for m in gl.nodes if m.kind == "if" and dotted_name(m.part) == "provided_launch_id"), -1), "T"), r_l, LAUNCH, "RunSpaceLaunchManager.create_launch", "return RunSpaceLaunch(id=provided_launch_id)", "an explicit launch id is not returned unchanged", cl.lineno)
-    hashes = [c for c in calls_in(cl) if call_name(c) in ("hashlib.sha256",)]
-    ok = False
-    if len(hashes) == 1 and hashes[0].args:
-        names = {x.id for x in ast.walk(hashes[0].args[0]) if isinstance(x, ast.Name)}
-        consts = [x.value for x in ast.walk(hashes[0].args[0]) if isinstance(x, ast.Constant) and isinstance(x.value, bytes)]
-        basis = assigned_value(cl, "basis")
-        ok = names <= {"basis", "idempotency_key"} and "idempotency_key" in names and any(c.startswith(b"semantiva:rsl") for c in consts) and bool(basis) and {x.id for x in ast.walk(basis[0]) if isinstance(x, ast.Name)} == {"run_space_inputs_id", "run_space_spec_id"}
-    R.check(ok, r_l, LAUNCH, "RunSpaceLaunchManager.create_launch", "sha256(prefix + (inputs_id or spec_id) + key)", "idempotent launch id depends on something other than (inputs/spec id, key) - e.g. time, attempt or a random value", cl.lineno)
-    ambient = [c for c in calls_in(cl) if (call_name(c) or "").split(".")[0] in ("uuid", "time", "random", "os", "datetime")]
-    R.check(not ambient, r_l, LAUNCH, "RunSpaceLaunchManager.create_launch", "no ambient source in create_launch itself", f"ambient value `{norm(ambient[0])}` used where an idempotent id may be derived" if ambient else "", cl.lineno)
-    gen = [n for n, v in kinds if isinstance(v, ast.Name) and v.id not in ("provided_launch_id",) and any("uuid" in ast.unparse(d) for d in assigned_value(cl, v.id))]
-    R.check(len(gen) == 1, r_l, LAUNCH, "RunSpaceLaunchManager.create_launch", "generated id only on the fall-through path", "uuid-based id is not confined to the path without explicit id / idempotency key", cl.lineno)
-    rsm = repo.func(IDENT, "RunSpaceIdentityService._rsm_v1_bytes")
-    src = ast.unparse(rsm)
-    ok = "fp.digest_sha256" in src and "spec_id" in src and ".sort(" in src and "fp.uri" in src
-    R.check(ok, r_l, IDENT, "RunSpaceIdentityService._rsm_v1_bytes", "payload = {spec_id, sorted [(role, uri, sha256, size)]}", "inputs id does not cover the spec id and every referenced file's content digest (order-independently)", rsm.lineno)
+        made = [o for o in _origins(cl, n.ast.value)]
+        for c in made:
+            if not (isinstance(c, ast.Call) and (call_name(c) or "").split(".")[-1] == "RunSpaceLaunch"):
+                unknown.append((n, c))
+                continue
+            for idv in _origins(cl, field(c, "id")) or [None]:
+                if idv is None:
+                    unknown.append((n, c))
+                elif isinstance(idv, ast.Name) and idv.id == "provided_launch_id":
+                    explicit.append((n, c, idv))
+                elif any(isinstance(x, ast.Call) and (call_name(x) or "").startswith("hashlib.") for s_ in _slice_exprs(cl, idv) for x in ast.walk(s_)):
+                    idem.append((n, c, idv))
+                else:
+                    generated.append((n, c, idv))
+    # (1) explicit id unchanged, only when one was given
+    ok = len(explicit) >= 1 and not unknown and "provided_launch_id" not in rebound and all(only_when(n.id, "provided_launch_id", True) for n, _c, _v in explicit)
+    R.check(ok, r_l, LAUNCH, QUAL, "return RunSpaceLaunch(id=provided_launch_id)", "an explicit launch id is not returned unchanged", cl.lineno)
+    # (2) idempotent id: sha256 over prefix + (inputs_id or spec_id) + key and nothing else
+    ALLOWED = {"idempotency_key", "run_space_inputs_id", "run_space_spec_id"}
+
+    def leaves(e: ast.AST, names: Set[str], consts: List[object], foreign: List[ast.AST]) -> None:
+        if isinstance(e, ast.Constant):
+            consts.append(e.value)
+        elif isinstance(e, ast.Name):
+            vals = _assigned(cl, e.id)
+            if vals and e.id not in params:
+                for v in vals:
+                    leaves(v, names, consts, foreign)
+            elif e.id in params:
+                names.add(e.id)
+            else:
+                foreign.append(e)
+        elif isinstance(e, ast.BinOp) and isinstance(e.op, (ast.Add, ast.Mod)):
+            leaves(e.left, names, consts, foreign)
+            leaves(e.right, names, consts, foreign)
+        elif isinstance(e, ast.BoolOp) and isinstance(e.op, ast.Or):
+            for v in e.values:
+                leaves(v, names, consts, foreign)
+        elif isinstance(e, ast.IfExp):
+            for v in (e.test, e.body, e.orelse):
+                leaves(v, names, consts, foreign)
+        elif isinstance(e, ast.Compare) and all(isinstance(o, (ast.Is, ast.IsNot)) for o in e.ops):
+            for v in [e.left] + e.comparators:
+                leaves(v, names, consts, foreign)
+        elif isinstance(e, (ast.Tuple, ast.List)):
+            for v in e.elts:
+                leaves(v, names, consts, foreign)
+        elif isinstance(e, ast.JoinedStr):
+            for v in e.values:
+                leaves(v, names, consts, foreign)
+        elif isinstance(e, ast.FormattedValue):
+            leaves(e.value, names, consts, foreign)
+        elif isinstance(e, ast.Call) and isinstance(e.func, ast.Attribute) and e.func.attr in ("encode", "join", "format") and all(isinstance(a, ast.Constant) for a in e.args if e.func.attr == "encode"):
+            leaves(e.func.value, names, consts, foreign)
+            if e.func.attr != "encode":
+                for a in e.args:
+                    leaves(a, names, consts, foreign)
+        elif isinstance(e, ast.Call) and isinstance(e.func, ast.Name) and e.func.id in ("str", "bytes") and e.args:
+            for a in e.args:
+                leaves(a, names, consts, foreign)
+        else:
+            foreign.append(e)
+
+    ok = len(idem) == 1
+    why = "idempotent launch id depends on something other than (inputs/spec id, key) - e.g. time, attempt or a random value"
+    if ok:
+        n, _c, idv = idem[0]
+        hs = [x for s_ in _slice_exprs(cl, idv) for x in ast.walk(s_) if isinstance(x, ast.Call) and (call_name(x) or "").startswith("hashlib.")]
+        parts: List[ast.AST] = []
+        for h in hs:
+            parts.extend(h.args)
+        if len(hs) == 1 and not parts:
+            # h = hashlib.sha256(); h.update(a); h.update(b)
+            hn = next((nm for nm in {x.id for x in ast.walk(cl) if isinstance(x, ast.Name)} if any(v is hs[0] for v in _assigned(cl, nm))), None)
+            parts = [a for c in calls_in(cl) if call_attr(c) == "update" and dotted_name(c.func.value) == hn for a in c.args] if hn else []
+        names: Set[str] = set()
+        consts: List[object] = []
+        foreign: List[ast.AST] = []
+        for p in parts:
+            leaves(p, names, consts, foreign)
+        prefix_ok = bool(consts) and isinstance(consts[0], (bytes, str)) and (consts[0] if isinstance(consts[0], bytes) else consts[0].encode()).startswith(b"semantiva:rsl")
+        ok = len(hs) == 1 and (call_name(hs[0]) == "hashlib.sha256") and bool(parts) and not foreign and names <= ALLOWED and {"idempotency_key", "run_space_spec_id"} <= names and prefix_ok and not (rebound & ALLOWED)
+        if foreign:
+            why = f"idempotent launch id depends on `{norm(foreign[0])[:60]}`, not only on (inputs/spec id, key): the same key does not reproduce the id"
+        elif names - ALLOWED:
+            why = f"idempotent launch id depends on {sorted(names - ALLOWED)}, not only on (inputs/spec id, key): the same key does not reproduce the id"
+        ok = ok and only_when(n.id, "idempotency_key", True) and only_when(n.id, "provided_launch_id", False)
+    R.check(ok, r_l, LAUNCH, QUAL, "sha256(prefix + (inputs_id or spec_id) + key)", why, idem[0][0].line if idem else cl.lineno)
+    # (3) generated ids only when neither an id nor a key was given, and they are uuid based
+    ok = len(generated) >= 1 and all(uuid_based(v) and only_when(n.id, "provided_launch_id", False) and only_when(n.id, "idempotency_key", False) for n, _c, v in generated)
+    R.check(ok, r_l, LAUNCH, QUAL, "generated id only on the fall-through path", "uuid-based id is not confined to the path without explicit id / idempotency key", generated[0][0].line if generated else cl.lineno)
+    # (4) every launch carries the attempt that was asked for
+    for n, c, _v in explicit + idem + generated:
+        av = field(c, "attempt")
+        outs = _origins(cl, av) if av is not None else []
+        ok = bool(outs) and all(isinstance(o, ast.Name) and o.id == "attempt" for o in outs) and "attempt" not in rebound
+        R.check(ok, r_l, LAUNCH, QUAL, f"return RunSpaceLaunch(..., attempt=attempt) [{'explicit' if (n, c, _v) in explicit else 'idempotent' if (n, c, _v) in idem else 'generated'} id]",
+                f"`{norm(c)[:70]}` does not carry the requested attempt ({'default of the dataclass is used' if av is None else 'attempt=' + norm(av)[:30]}): run_space_start, every pipeline_start and run_space_end of that launch report another attempt than the one asked for", n.line)
+    # the CLI asks for the attempt given on the command line
+    run_nf = nfunc(repo, CLI, "_run")
+    crt = [c for c in calls_in(run_nf) if call_attr(c) == "create_launch"]
+    ok = len(crt) == 1 and any("run_space_attempt" in d for d in _slice_names(run_nf, kwarg(crt[0], "attempt"))) and all(
+        any(want in d for d in _slice_names(run_nf, kwarg(crt[0], kw))) for kw, want in (("provided_launch_id", "run_space_launch_id"), ("idempotency_key", "run_space_idempotency_key")))
+    R.check(ok, r_l, CLI, "_run", "create_launch(provided_launch_id=args..., idempotency_key=args..., attempt=args...)", "the launch is not created from the launch id / idempotency key / attempt given on the command line", crt[0].lineno if crt else run_nf.lineno)
+
+    # inputs id: spec id + every fingerprint (role, uri, content digest), order independent
+    rsm = nfunc(repo, IDENT, "RunSpaceIdentityService._rsm_v1_bytes")
+    rp = _params(rsm)
+    item_ok = False
+    for d in ast.walk(rsm):
+        if isinstance(d, ast.Dict):
+            kv = {k.value: v for k, v in zip(d.keys, d.values) if isinstance(k, ast.Constant)}
+            if "sha256" in kv and "uri" in kv:
+                bases = {dotted_name(v.value) for key, v in kv.items() if key in ("sha256", "uri", "role") and isinstance(v, ast.Attribute)}
+                item_ok = (isinstance(kv["sha256"], ast.Attribute) and kv["sha256"].attr == "digest_sha256" and isinstance(kv["uri"], ast.Attribute) and kv["uri"].attr == "uri" and len(bases) == 1 and None not in bases)
+                if item_ok:
+                    var = next(iter(bases))
+                    iters = [c.iter for c in ast.walk(rsm) if isinstance(c, ast.comprehension) and dotted_name(c.target) == var] + [f.iter for f in ast.walk(rsm) if isinstance(f, ast.For) and dotted_name(f.target) == var]
+                    item_ok = bool(iters) and all(len(rp) >= 3 and dotted_name(i) == rp[2] for i in iters)
+    spec_ok = any(isinstance(d, ast.Dict) and any(isinstance(k, ast.Constant) and k.value == "spec_id" and len(rp) >= 2 and dotted_name(v) == rp[1] for k, v in zip(d.keys, d.values)) for d in ast.walk(rsm))
+    sorted_ok = any(call_attr(c) in ("sort", "sorted") for c in calls_in(rsm))
+    R.check(item_ok and spec_ok and sorted_ok, r_l, IDENT, "RunSpaceIdentityService._rsm_v1_bytes", "payload = {spec_id, sorted [(role, uri, sha256, size)]}", "inputs id does not cover the spec id and every referenced file's content digest (order-independently)", rsm.lineno)
     sf = repo.func(IDENT, "RunSpaceIdentityService._sha256_file")
-    ok = any(call_attr(c) == "update" for c in calls_in(sf)) and "rb" in ast.unparse(sf) and not any(isinstance(n, ast.Break) for n in ast.walk(sf))
+    ok = any(call_attr(c) == "update" for c in calls_in(sf)) and any(isinstance(x, ast.Constant) and x.value == "rb" for x in ast.walk(sf)) and not any(isinstance(n, ast.Break) for n in ast.walk(sf))
     R.check(ok, r_l, IDENT, "RunSpaceIdentityService._sha256_file", "digest of the whole file content", "file digest does not read the complete content", sf.lineno)
